@@ -1352,7 +1352,7 @@ fn gen_mutation(rng: &mut Rng, fonts: &[(&'static str, Vec<u8>)]) -> Mutation {
         }
     }
     // generic pokes in the tables that feed arithmetic
-    const TABS: &[&[u8; 4]] = &[b"head", b"hhea", b"OS/2", b"hmtx", b"glyf", b"glyf", b"glyf", b"loca", b"maxp", b"cvt ", b"fvar", b"avar", b"gvar", b"gvar", b"HVAR", b"MVAR", b"cvar", b"COLR", b"COLR", b"COLR", b"CPAL", b"post", b"cmap", b"cmap", b"CFF ", b"CFF2", b"GDEF", b"GSUB", b"GPOS", b"vhea", b"vmtx", b"VORG", b"VVAR", b"hdmx", b"EBLC", b"CBLC", b"sbix", b"prep", b"fpgm", b"name", b"STAT", b"kern"];
+    const TABS: &[&[u8; 4]] = &[b"head", b"hhea", b"OS/2", b"hmtx", b"glyf", b"glyf", b"glyf", b"loca", b"maxp", b"cvt ", b"fvar", b"avar", b"gvar", b"gvar", b"HVAR", b"MVAR", b"cvar", b"COLR", b"COLR", b"COLR", b"CPAL", b"post", b"cmap", b"cmap", b"CFF ", b"CFF2", b"GDEF", b"GSUB", b"GPOS", b"vhea", b"vmtx", b"VORG", b"VVAR", b"hdmx", b"EBLC", b"CBLC", b"sbix", b"prep", b"fpgm", b"name", b"STAT", b"kern", b"IFT ", b"IFT ", b"IFT ", b"IFT ", b"IFT ", b"IFT "];
     let n = if edits.is_empty() { rng.range(1, 4) } else { rng.range(0, 2) };
     for _ in 0..n {
         let mut tries = 0;
@@ -1725,8 +1725,8 @@ fn reduce_mut(fonts: &[(&'static str, Vec<u8>)], m: &Mutation, api: usize, sel: 
 
 fn search(seed: u64, thorough: bool, st: &mut Stats, fonts: &[(&'static str, Vec<u8>)]) -> BTreeMap<String, Found> {
     let envn = |k: &str, d: u64| std::env::var(k).ok().and_then(|v| v.parse().ok()).unwrap_or(d);
-    let n_bc: u64 = envn("C20_NBC", if thorough { 6_000_000 } else { 700_000 });
-    let n_mut: u64 = envn("C20_NMUT", if thorough { 400_000 } else { 40_000 });
+    let n_bc: u64 = envn("C20_NBC", if thorough { 120_000_000 } else { 12_000_000 });
+    let n_mut: u64 = envn("C20_NMUT", if thorough { 6_000_000 } else { 600_000 });
     let threads = envn("C20_THREADS", 16);
     let trace = std::env::var("C20_TRACE").is_ok();
     let fonts_ref = fonts;
